@@ -37,3 +37,75 @@ Fixpoint sort_neighbors_heap (fuel : nat) (cur : nat) (prev : option nat) (h : h
 
 Definition sort_neighbors_by_tips_heap (h : heap) : hres heap :=
   do p <- sort_neighbors_heap (hfuel h) (hroot h) None h; HOk (fst p).
+
+(** ** Tree.RemoveSingleNodes / removeSingleNodesRecur(current, previous, e) *)
+Local Open Scope string_scope.
+Definition err_rs_orient : string := "Problem in edge orientation".
+Local Close Scope string_scope.
+
+(** the body of  for _, child := range current.Neigh() { if child != previous {...} } :
+    child.neigh[idx] = previous; the branch child.br[idx] gets previous as left end and
+    max(support, e.support); previous.addChild(child, br); the lengths are added *)
+Definition rs_child (current previous child : nat) (length support : Q) (h : heap) : hres heap :=
+  do idx <- node_index h child current;
+  do h <- set_neigh_at h child idx previous;
+  do b <- br_at h child idx;
+  do bd <- get_edge h b;
+  if Nat.eqb (hleft bd) current then
+    let i := hinfo bd in
+    let h := set_edge h b (mkHE previous (hright bd) (mkE (elen i) (qmax (esup i) support) (epv i) (ecom i))) in
+    do h <- add_child previous child b h;
+    if negb (qeqb (elen i) nilv) || negb (qeqb length nilv)
+    then set_info h b (fun j => mkE (qmax 0%Q (elen j) + qmax 0%Q length)%Q (esup j) (epv j) (ecom j))
+    else HOk h
+  else HErr err_rs_orient.
+
+(** the suppression of [current] (two neighbours, not the root) reached from [previous]
+    through the branch [e]; e.left = e.right = nil: the branch leaves the heap *)
+Definition rs_suppress (current previous e : nat) (h : heap) : hres heap :=
+  do ed <- get_edge h e;
+  let length := elen (hinfo ed) in
+  let support := esup (hinfo ed) in
+  do h <- del_neighbor current previous h;
+  do h <- del_neighbor previous current h;
+  let h := mkHeap (hnodes h) (arem e (hedges h)) (hroot h) (hnextn h) (hnexte h) in
+  do hc <- get_node h current;
+  do h <- (fix loop (cs : list nat) (h : heap) : hres heap :=
+             match cs with
+             | [] => HOk h
+             | child :: r =>
+               if Nat.eqb child previous then loop r h
+               else do h1 <- rs_child current previous child length support h; loop r h1
+             end) (hneigh hc) h;
+  unconnect_node current h.
+
+(** post-order: the neighbours other than [previous] first (over copies of neigh and br taken
+    at entry), then the node itself.  The Go code drops the error returned by the recursive
+    calls and by the top call; the model reports it: on a good heap there is none. *)
+Definition rs_loop (rec : nat -> nat -> heap -> hres heap) (prev : option nat) : list (nat * nat) -> heap -> hres heap :=
+  fix loop (l : list (nat * nat)) (h : heap) : hres heap :=
+    match l with
+    | [] => HOk h
+    | (n, e) :: r =>
+      if opt_nat_eqb (Some n) prev then loop r h
+      else do h1 <- rec n e h; loop r h1
+    end.
+
+Fixpoint rs_rec (fuel : nat) (cur : nat) (prev : option (nat * nat)) (h : heap) : hres heap :=
+  match fuel with
+  | O => HPanic
+  | S f =>
+    do hn <- get_node h cur;
+    if Nat.ltb (length (hbr hn)) (length (hneigh hn)) then HPanic          (* tmpedges[i] out of range *)
+    else
+      do h <- rs_loop (fun n e h => rs_rec f n (Some (cur, e)) h) (option_map fst prev) (combine (hneigh hn) (hbr hn)) h;
+      do hc <- get_node h cur;
+      if Nat.eqb (length (hneigh hc)) 2 && negb (Nat.eqb cur (hroot h)) then
+        match prev with
+        | Some (previous, e) => rs_suppress cur previous e h
+        | None => HPanic                                                   (* previous == nil *)
+        end
+      else HOk h
+  end.
+
+Definition remove_single_nodes_heap (h : heap) : hres heap := rs_rec (hfuel h) (hroot h) None h.
